@@ -120,9 +120,9 @@ def run(ctx):
                 f0 = code
                 code = (f0[0], lambda a, f=f0[1]: not f(a))
             c2 = '%s.chi2[0]' % x
-            A, B = ('SET', 'chi'), ('LT', c2, 'chi')
-            C, D = ('SET', 'cpd'), ('LT', '%s/%s.source.n_data' % (c2, x), 'cpd')
-            ref = ({A, B, C, D}, lambda a: (a[A] and a[B]) or (a[C] and a[D]))
+            A, (B, nb) = ('SET', 'chi'), boolfn.LT(c2, 'chi')
+            C, (D, nd) = ('SET', 'cpd'), boolfn.LT('%s/%s.source.n_data' % (c2, x), 'cpd')
+            ref = ({A, B, C, D}, lambda a: (a[A] and (a[B] != nb)) or (a[C] and (a[D] != nd)))
             extra = code[0] - ref[0]
             if extra:
                 ctx.undecided('ALG-17', 'good/bad criterion', where(fo, test), 'unrecognised atoms %s' % sorted(extra))
